@@ -68,7 +68,7 @@ def build_cases(work, tier, rnd, gen_exprs=None):
     rnd.shuffle(special)
     rnd.shuffle(rest)
     if tier == 'quick':
-        take = special[:250] + rest[:250] + wtexts
+        take = special[:180] + rest[:180] + wtexts
     else:
         take = special + rest[:5000] + wtexts
     cultures = sorted({c for _, c in pairs})
@@ -99,9 +99,34 @@ def build_cases(work, tier, rnd, gen_exprs=None):
             if len(a['text']) + len(b['text']) > 160:
                 continue
             cases.append({'api': api, 'culture': cul, 'text': a['text'] + rnd.choice(fillers) + b['text'], 'ref': a['ref'] or '2019-03-10T12:00:00', 'src': 'joined'})
-    gens = [{'module': 'Gen_Noise', 'cfg': 'Gen_Noise_2.cfg', 'distinct_states': g1['distinct']},
+    # 5. generated well-formed expressions embedded in carriers: modifiers x date-time expressions, and the
+    #    expression generators of the other contracts (quick configurations)
+    g3, st3 = flow.generate(work, 'Gen_Mods', 'Gen_Mods.cfg')
+    for s_ in st3:
+        cases.append({'api': 'datetime', 'culture': s_['c']['culture'], 'text': s_['c']['text'], 'ref': s_['c']['ref'], 'src': 'generated:Gen_Mods'})
+    extra_states = g3['distinct']
+    g4, st4 = flow.generate(work, 'Gen_UnitSeq', 'Gen_UnitSeq.cfg')
+    st4.sort(key=lambda s_: json.dumps(s_['c'], sort_keys=True))
+    for s_ in (st4 if tier == 'thorough' else st4[::3]):
+        for api in ('currency', 'dimension'):
+            cases.append({'api': api, 'culture': s_['c']['culture'], 'text': s_['c']['text'], 'ref': None, 'src': 'generated:Gen_UnitSeq'})
+    extra_states += g4['distinct']
+    from . import dt_common as _d
+    for mod, cfg, api_of in (('Gen_DateAbs', 'Gen_DateAbs_quick.cfg', lambda c: 'datetime'), ('Gen_ClockTime', 'Gen_ClockTime_quick.cfg', lambda c: 'datetime'),
+                             ('Gen_RelDate', 'Gen_RelDate_quick.cfg', lambda c: 'datetime'), ('Gen_DurRange', 'Gen_DurRange_quick.cfg', lambda c: 'datetime'),
+                             ('Gen_NumLiteral', 'Gen_NumLiteral_quick.cfg', lambda c: c['api']), ('Gen_Choice', 'Gen_Choice.cfg', lambda c: 'boolean')):
+        g, stx = flow.generate(work, mod, cfg)
+        stx.sort(key=lambda s_: json.dumps(s_['c'], sort_keys=True, ensure_ascii=False))
+        extra_states += g['distinct']
+        for s_ in flow.sample_evenly(stx, 400 if tier == 'quick' else 4000):
+            c = s_['c']
+            t = _d.unescape(c['text'])
+            carrier = CARRIERS[(len(t) + len(cases)) % len(CARRIERS)]
+            cases.append({'api': api_of(c), 'culture': c.get('culture', 'en-us'), 'text': carrier.format(t), 'ref': c.get('ref') or '2019-03-10T12:00:00', 'src': 'generated:' + mod})
+    gens = [{'module': 'Gen_Mods + expression generators of C03, C06-C08, C10, C20', 'cfg': 'quick configurations', 'distinct_states': extra_states},
+            {'module': 'Gen_Noise', 'cfg': 'Gen_Noise_2.cfg', 'distinct_states': g1['distinct']},
             {'module': 'Gen_Noise', 'cfg': 'Gen_Noise_walk.cfg (simulate)', 'distinct_states': g2['generated']}]
-    return cases, gens, g1['distinct'] + g2['generated'], g1['generated'] + g2['generated']
+    return cases, gens, g1['distinct'] + g2['generated'] + extra_states, g1['generated'] + g2['generated'] + 2 * extra_states
 
 
 def run(prop, tier, which):
